@@ -245,6 +245,9 @@ def overlap_cases(prop, rng, tier):
     }[prop]
     scheds = [list(s) for s in itertools.product("01", repeat=4)] if tier == "thorough" else \
              [list("0011"), list("0101"), list("0110"), list("1001"), list("0001"), list("1000"), list("0100")]
+    # begin-while-held probes: the second request asks for its transaction after the first has made
+    # k storage calls inside its own (it must wait; if it does not, the outcome shows it)
+    scheds += [["0.1!1"], ["1.1!0"], ["0.2!1"], ["1.2!0"]]
     out = []
     k = 0
     for (a, b) in groups:
